@@ -28,7 +28,7 @@ func c08v1(g *Gen) {
 			if p, _ := catch(func() { b, err = types.ExtractSingleBoolCommentTag(marker, key, def, lines) }); p {
 				g.Emit("C08.bool1", in, tag("panic"), cls...)
 			} else if err != nil {
-				g.Emit("C08.bool1", in, tag("err", atom(c08errKind(err))), append(cls, "bool-error")...)
+				g.Emit("C08.bool1", in, tag("err", c08errS(err)), append(cls, "bool-error")...)
 			} else {
 				g.Emit("C08.bool1", in, tag("ok", boolS(b)), cls...)
 			}
